@@ -5,6 +5,7 @@ import (
 	"errors"
 	"fmt"
 	"io"
+	"math"
 	"math/rand/v2"
 	"net"
 	"net/http"
@@ -62,6 +63,7 @@ type cycleRec struct {
 
 	fullViolated map[string]bool // session ids clause (i) flagged in this cycle
 	lost         map[uint64]bool // op ids clause (ii) found lost in this cycle's interval
+	lostQueued   map[uint64]bool // op ids pushed before the attach, broadcast to this stream (FIFO) and never applied; value = seen on the wire
 	nPre, nGap   int
 	nConn        int
 	dropsBefore  int
@@ -511,7 +513,7 @@ func (sc *scenario) run() error {
 	var prev *cycleRec
 	failures := 0
 	for cy := 0; cy < nCycles; cy++ {
-		c := &cycleRec{N: cy, fullViolated: map[string]bool{}, lost: map[uint64]bool{}}
+		c := &cycleRec{N: cy, fullViolated: map[string]bool{}, lost: map[uint64]bool{}, lostQueued: map[uint64]bool{}}
 		sc.cycles = append(sc.cycles, c)
 		sc.cycle.Store(int64(cy))
 
@@ -982,6 +984,7 @@ func (sc *scenario) judgeInterval(c *cycleRec, final bool) {
 	}
 	seen := map[uint64]bool{}
 	var maxCall int64
+	minRet := int64(math.MaxInt64)
 	var maxCallPush *pushRec
 	for i, a := range applied {
 		p := sc.byOp[a.Op]
@@ -1013,10 +1016,19 @@ func (sc *scenario) judgeInterval(c *cycleRec, final bool) {
 		if p.Call > maxCall {
 			maxCall, maxCallPush = p.Call, p
 		}
+		if p.Ret != 0 && p.Ret < minRet {
+			minRet = p.Ret
+		}
 	}
 	obligated := 0
 	var lost []*pushRec
 	for _, p := range sc.pushes {
+		if p.Ret != 0 && p.Call <= c.ConnObserved && !seen[p.Op] && minRet < p.Call && p.Ret < maxCall {
+			// pushed before the stream was up, so clause (ii) does not cover it; but an older push and a
+			// newer push were both applied from this stream, so by FIFO it was broadcast to this client
+			// and disappeared on the way. Clause (iii) reports it if it leaves the tables different.
+			c.lostQueued[p.Op] = wireOps[p.Op]
+		}
 		if p.Ret == 0 || p.Call <= c.ConnObserved || (c.CutIssued != 0 && p.Ret >= c.CutIssued) || p.Call > end {
 			continue
 		}
@@ -1096,9 +1108,17 @@ func (sc *scenario) judgeConvergence(c *cycleRec) {
 		sc.cnt("B_convergence_points_equal", 1)
 		return
 	}
-	var gapDiffs, unexplained []map[string]any
+	var gapDiffs, unexplained, queued []map[string]any
+	queuedOnWire := false
 	for _, d := range ds {
 		p := last[d.SID]
+		if p != nil {
+			if onWire, ok := c.lostQueued[p.Op]; ok {
+				queued = append(queued, map[string]any{"difference": d, "last_change": p, "relayed_on_the_wire": onWire})
+				queuedOnWire = queuedOnWire || onWire
+				continue
+			}
+		}
 		switch {
 		case p == nil || p.Ret != 0 && p.Ret < c.GetReleased:
 			// last changed before the snapshot was taken: the full sync had to bring it over
@@ -1118,6 +1138,20 @@ func (sc *scenario) judgeConvergence(c *cycleRec) {
 		default:
 			unexplained = append(unexplained, map[string]any{"difference": d, "last_change": p, "when": "?"})
 		}
+	}
+	if len(queued) > 0 {
+		sc.cnt("B_convergence_diffs_queued_change_lost", len(queued))
+		cmp, cls := compBroadcast, "queued-change-not-sent"
+		switch {
+		case queuedOnWire:
+			cmp, cls = compStream, "queued-change-received-not-applied"
+		case c.drops > 0:
+			cls = "queued-change-dropped-on-full-client-channel"
+		}
+		violation(sc.size(), cmp, ruleConv, cls,
+			fmt.Sprintf("layer B scenario %d cycle %d: link up, active quiet, a later sentinel applied, yet standby %s != active %s: %d session(s) were last changed before the stream was attached, the change was still in the active's pending queue, older queued changes and newer ones were applied from this stream (so it was broadcast to this client) but it never was (the active logged %d 'client channel full' drops in this interval); the older queued changes, replayed after the snapshot, left the session stale",
+				sc.idx, c.N, got, want, len(queued), c.drops),
+			map[string]any{"scenario": sc.describe(), "standby": got.String(), "active": want.String(), "sessions": queued})
 	}
 	if len(gapDiffs) > 0 {
 		sc.cnt("B_convergence_diffs_gap", len(gapDiffs))
